@@ -73,7 +73,7 @@ CLAIMED["C07"] = (SCHED_TECH,
     "C07_nil (nil only if every job started and ended successfully, none otherwise), C07_nil_ctx (context not cancelled when nil is returned), C07_error (a "
     "non-nil return is exactly one error: the context's, or the very error a job ended with; never the sentinel), C07_downstream (nothing transitively "
     "downstream of a failed job starts), for every run of the fail-fast model; for the generated jobs (Layer 2): nothing transitively downstream of a job that failed or never ran is run, and Results are written only when no job failed "
-    "(C07_generated_downstream, C07_generated_results_untouched). Tie: trace conformance incl. Wait's return value; error identities on the real scheduler; generated flows and Parallel programs under every single-failure scenario.",
+    "(C07_generated_downstream, C07_generated_results_untouched), and a saturated execution of an acyclic job graph without failure has run every job, each returning nil (C07_generated_nil_means_all_ran). Tie: trace conformance incl. Wait's return value; error identities on the real scheduler; generated flows and Parallel programs under every single-failure scenario.",
     SCHED_NOTE, "DESIGN.md §7 C07")
 CLAIMED["C08"] = (SCHED_TECH,
     "C08_runs (after completion every job whose dependencies all succeeded was started or skipped for its own context), C08_downstream, C08_errors (the error "
